@@ -472,6 +472,8 @@ var known = map[string]int{
 	"C38:sos-accepted-from-non-member":                     3,
 	"C38:mpk-accepted-twice-from-one-miner":                2,
 	"C38:stored-magic-block-pools-have-no-visible-members": 1,
+	"C38:magic-block-without-previous-miner-at-x-percent-0": 6,
+	"C38:pay-fees-panics-at-x-percent-0":                    7,
 }
 
 func prio(sig string) int {
@@ -506,6 +508,16 @@ func oracle(ops, outs []string) *corr.Violation {
 		}
 	}
 	prevM, prevS := setOf(a["prevM"]), setOf(a["prevS"])
+	xPositive := false
+	if x, ok := f64(a["x"]); ok && x > 0 {
+		xPositive = true
+	}
+	atX0 := func(sig string) string {
+		if xPositive {
+			return sig
+		}
+		return sig + "-at-x-percent-0"
+	}
 	var cur snap // what the contract held after the last payFees
 	cur.dkg, cur.mpks, cur.gsos, cur.waited, cur.keep = map[string]bool{}, map[string]bool{}, map[string]bool{}, map[string]bool{}, map[string]bool{}
 	mpkBy, sosBy, waitBy := map[string]int{}, map[string]int{}, map[string]int{}
@@ -586,7 +598,7 @@ func oracle(ops, outs []string) *corr.Violation {
 			stat.pays++
 			if !strings.HasPrefix(out, "ok | ") {
 				if strings.HasPrefix(out, "panic") {
-					note(i, "pay-fees-panics", "payFees panicked")
+					note(i, atX0("pay-fees-panics"), "payFees panicked (in a node: the process ends)")
 				}
 				continue
 			}
@@ -641,9 +653,9 @@ func oracle(ops, outs []string) *corr.Violation {
 				lastMB = sn.mbNumber*1000003 + sn.mbStart
 				stat.mbs++
 				if !intersects(sn.mbM, prevM) {
-					note(i, "magic-block-without-previous-miner", fmt.Sprintf("magic block miners %v, previous set %v", keysOf(sn.mbM), keysOf(prevM)))
+					note(i, atX0("magic-block-without-previous-miner"), fmt.Sprintf("magic block miners %v, previous set %v", keysOf(sn.mbM), keysOf(prevM)))
 				} else if !intersects(sn.mbS, prevS) {
-					note(i, "magic-block-without-previous-sharder", fmt.Sprintf("magic block sharders %v, previous set %v", keysOf(sn.mbS), keysOf(prevS)))
+					note(i, atX0("magic-block-without-previous-sharder"), fmt.Sprintf("magic block sharders %v, previous set %v", keysOf(sn.mbS), keysOf(prevS)))
 				} else if len(sn.mbVM) == 0 || len(sn.mbVS) == 0 {
 					note(i, "stored-magic-block-pools-have-no-visible-members", fmt.Sprintf("the stored magic block lists miners %v / sharders %v in Nodes, but HasNode/Size/Keys (NodesMap) see none: node.Pool.UnmarshalMsg does not restore NodesMap", keysOf(sn.mbM), keysOf(sn.mbS)))
 				}
@@ -701,7 +713,7 @@ func main() {
 			if th {
 				return 300
 			}
-			return 24
+			return 16
 		},
 		Fixed: [][]string{
 			// a complete view change, then the next DKG attempts (stuck at Start: gn.PrevMagicBlock has no visible members)
@@ -716,6 +728,12 @@ func main() {
 				"wait x0", "wait m7", "wait m0", "pay"),
 			// witness: shares under an id that has no MPK (run in a child process)
 			append(append([]string{fixedInit("")}, toPublish...), "sos x1 3 valid", "sos m4 1 valid", "sos m0 3 valid", "pay"),
+			// x_percent = 0: no quota of previous miners; the best-staked candidate (not a previous miner) is the only one kept
+			{"init minN=1 maxN=1 minS=1 maxS=4 t=" + bitsOf(0.66) + " k=" + bitsOf(0.5) + " x=" + bitsOf(0) + " rounds=1,1,1,1,3 miners=m0:30,m4:20,m1:30 sharders=s0:20,s3:5 prevM=m4,m5 prevS=s0 seed=7 perms=" + permTable(7, nMinerKeys),
+				"pay", "pay", "mpk m4 1", "mpk m1 1", "keep x1 s0", "pay", "pay", "sos m1 0 valid", "sos m4 1 valid", "pay"},
+			// x_percent = 0, max_s = 1: the only sharder kept is not a previous one: reduceShardersList panics ("must not happen")
+			{"init minN=2 maxN=3 minS=1 maxS=1 t=" + bitsOf(0.5) + " k=" + bitsOf(0.75) + " x=" + bitsOf(0) + " rounds=1,1,1,1,4 miners=m0:20,m1:10,m2:0,m3:10 sharders=s2:0,s5:10 prevM=m0,m1,m2 prevS=s2 seed=7 perms=" + permTable(7, nMinerKeys),
+				"pay", "pay", "keep m6 s5", "keep m6 s2", "mpk m0 2", "mpk m1 2", "mpk m2 2", "pay", "pay", "sos m0 2 valid", "sos m1 2 valid", "sos m2 2 valid", "pay"},
 			// too few waits: the view change is cancelled
 			append(append([]string{fixedInit("")}, toPublish...), "sos m0 3 valid", "sos m1 3 valid", "sos m2 3 valid", "sos m3 3 valid", "pay", "pay",
 				"wait m0", "pay", "pay", "pay", "pay", "pay", "pay"),
